@@ -491,6 +491,37 @@ pub fn layouts(seed: u64, count: u64, outdir: &str, big: bool, ops_path: Option<
         if bad {
             continue;
         }
+        // MS-CFB 2.6.3: in a version 3 file the most significant 32 bits of a stream's size "SHOULD be
+        // set to zero" by writers and are to be ignored by readers: the same image with other bits
+        // there must open to the same content in both modes
+        if !cfg.v4 {
+            let mut img2 = img.clone();
+            let l = crate::mutate::layout(&img2);
+            let per = l.s / 128;
+            for i in 1..l.dir_sectors.len() * per {
+                let o = (l.dir_sectors[i / per] + 1) * l.s + (i % per) * 128;
+                if o + 128 <= img2.len() && img2[o + 66] == 2 {
+                    let g: u32 = match r.below(4) { 0 => 0xffff_ffff, 1 => 1, 2 => 0xcdcd_cdcd, _ => r.next() as u32 | 1 };
+                    img2[o + 124..o + 128].copy_from_slice(&g.to_le_bytes());
+                }
+            }
+            for strict in [true, false] {
+                let got = catch(|| {
+                    let r = if strict { CompoundFile::open_strict(std::io::Cursor::new(img2.clone())) } else { CompoundFile::open(std::io::Cursor::new(img2.clone())) };
+                    match r {
+                        Ok(c) => crate::api::dump_of(c),
+                        Err(e) => format!("err {} ({})", err_kind(&e), e),
+                    }
+                }).unwrap_or_else(|m| format!("panic {}", m));
+                out.ops += 1;
+                if got != expected {
+                    let p2 = format!("{}/L{}_highbits.cfb", outdir, k);
+                    let _ = std::fs::write(&p2, &img2);
+                    out.violations.push(format!("layout {} (seed {}): {} open of {} (a version 3 file with non-zero high 32 bits in its stream size fields) gives {} but the file encodes {}", k, seed, if strict { "strict" } else { "permissive" }, p2, short(&got), short(&expected)));
+                    break;
+                }
+            }
+        }
         // mutate the foreign file
         let mut real = Real::new();
         let shared = SharedFile::new(img.clone());
